@@ -307,8 +307,20 @@ def cec_cases(draw):
             "label_kind": draw(st.sampled_from(["int", "int_gap", "str"])), "seed": draw(st.integers(0, 10 ** 6))}
 
 
+def enum_wf_every_kind(tier):
+    """Every runnable classifier x label type x {2, 3 classes} x {fresh, refitted} x {with, without
+    conflicting duplicates}, on fixed panels (the discrete part of the domain, exhaustively)."""
+    import itertools
+
+    for kind, lk, k, prefit, dup in itertools.product(panelpool.CLASSIFIERS, ["int", "int_gap", "str", "float"], [2, 3], [False, True], [False, True]):
+        yield {"spec": {"kind": kind, "random_state": 7, "n_columns": 2 if kind == "cec" else 1}, "n_classes": k, "n_train": 10, "t": 24,
+               "seed": 1234 + k, "separable": not dup, "prefit": prefit, "dup": dup, "label_kind": lk, "unbalanced": k == 3,
+               "y_as_series": lk == "str", "container": "nested" if prefit else "numpy3d"}
+
+
 def subchecks():
     return [
+        SubCheck("well_formed_every_kind", oracle_wellformed, enumerate_cases=enum_wf_every_kind, shards_quick=16, shards_thorough=16, exhaustive=True),
         SubCheck("well_formed", oracle_wellformed, wf_cases(), quick=360, thorough=5000, shards_quick=12, shards_thorough=16),
         SubCheck("forest_average_of_trees", oracle_forest, forest_cases(), quick=200, thorough=4000, shards_quick=2, shards_thorough=8),
         SubCheck("column_ensemble_average", oracle_column_ensemble, cec_cases(), quick=200, thorough=3000, shards_quick=2, shards_thorough=8),
